@@ -76,28 +76,50 @@ func init() {
 		func(c *Ctx, r *R) {
 			fi := r.Need(c.Fn(c.W, "allFields"), "allFields")
 			if fi != nil {
+				// every way of answering "true": the conditions that hold there (dominating guards
+				// plus the conjuncts of the returned expression) must include all three requirements
 				rets := fi.returnsOf()
-				arity, literal, cmp := false, false, false
+				arity, literal, cmp := true, true, true
+				var last *ast.ReturnStmt
+				s := ""
+				nTrue := 0
 				for _, ret := range rets {
-					isFalse := types.ExprString(ret.Results[0]) == "false"
-					for _, g := range fi.Guards(ret) {
-						if be, ok := ast.Unparen(g.Expr).(*ast.BinaryExpr); ok && isFalse && !g.Neg && be.Op == token.NEQ && types.ExprString(be.Y) == "2" && fi.isBuiltin(be.X, "len") != nil {
-							arity = true
+					if types.ExprString(ret.Results[0]) == "false" {
+						continue
+					}
+					nTrue++
+					last = ret
+					conds := append(fi.Guards(ret), flatten(ret.Results[0], false, ret)...)
+					a, l, cm := false, false, false
+					for _, g := range conds {
+						if be, ok := ast.Unparen(g.Expr).(*ast.BinaryExpr); ok && types.ExprString(be.Y) == "2" && fi.isBuiltin(be.X, "len") != nil {
+							if (be.Op == token.NEQ && g.Neg) || (be.Op == token.EQL && !g.Neg) {
+								a = true
+							}
 						}
-						if v := fi.varOf(g.Expr); v != nil && isFalse && g.Neg {
+						if v := fi.varOf(g.Expr); v != nil && !g.Neg {
 							for _, d := range fi.defs[v] {
-								if ta, ok := ast.Unparen(d.rhs).(*ast.TypeAssertExpr); ok && types.ExprString(ta.Type) == "*ast.BasicLit" {
+								if ta, ok := ast.Unparen(d.rhs).(*ast.TypeAssertExpr); ok && d.idx == 1 && types.ExprString(ta.Type) == "*ast.BasicLit" {
 									if ix, ok := ast.Unparen(ta.X).(*ast.IndexExpr); ok && types.ExprString(ix.Index) == "1" {
-										literal = true
+										l = true
 									}
 								}
 							}
 						}
+						if !g.Neg {
+							sy := newEmitter(c, fi).sym(g.Expr)
+							if (strings.Contains(sy, `strconv.Quote("*")`) || strings.Contains(sy, `"\"*\""`) || strings.Contains(sy, "`\"*\"`")) && strings.Contains(sy, ".Value") {
+								cm = true
+								s = sy
+							}
+						}
 					}
+					arity, literal, cmp = arity && a, literal && l, cmp && cm
 				}
-				last := rets[len(rets)-1]
-				s := newEmitter(c, fi).sym(last.Results[0])
-				cmp = (strings.Contains(s, `strconv.Quote("*")`) || strings.Contains(s, `"\"*\""`) || strings.Contains(s, "`\"*\"`")) && strings.Contains(s, ".Value")
+				if nTrue == 0 {
+					arity, literal, cmp = false, false, false
+					last = rets[len(rets)-1]
+				}
 				r.Check(arity, "allFields/exactly-two-arguments", fi.Decl.Pos(), "any other number of arguments is not the all-fields form")
 				r.Check(literal, "allFields/literal", fi.Decl.Pos(), "a non-literal second argument is not the all-fields form")
 				r.Check(cmp, "allFields/star", last.Pos(), "the literal is compared with the quoted \"*\" (%s)", s)
